@@ -4,6 +4,7 @@ import Pyrtma.Spec.Manager
 import Pyrtma.Proofs.ManagerSimRun
 import Pyrtma.Proofs.ManagerSimOrigin
 import Pyrtma.Proofs.ManagerSimConn
+import Pyrtma.Proofs.ManagerSimOwedDep
 /-!
 # C14 — undeliverable messages are reported, not silently lost
 
@@ -249,5 +250,56 @@ def exA : Spec.A := { mods := [{ uid := 1, modId := 11, connected := true, types
 def exH : Hdr := { mtype := 5000, src := 10, dest := 0, destHost := 0, nbytes := 4, k := 7 }
 example : (Spec.checkData {} exA exH []).errs.map (·.1) = ["C14"] ∧
     (Spec.checkData {} exA exH [.send 2 1 (failedFrame {} 11 exFrame)]).errs = [] := by decide
+
+/-! ### An undeliverable CLIENT_CLOSED is owed a notice too (model level) -/
+
+/-- **PARTIAL (model level; the C14 clause of `Spec.checkDepartures` is not linked through the simulation).**  One
+departure handled at top level — `remove_module` with everything nested in it: the CLIENT_CLOSED forward, the notices
+about it, the departures of the connections that fail meanwhile and their own CLIENT_CLOSED forwards, for every nesting
+depth.  `ext` are its events; `o` can take a FAILED_MESSAGE at the end (`StableF`); `U` is a duplicate-free list of
+subscribers of CLIENT_CLOSED with module id `d` that are not writable, are no loggers and are still in the table at the
+end (`Owed`).  Then `o` has been written at least (number of connections closed in `ext`) · `|U|` notices
+`failed d CLIENT_CLOSED 0 0`: one per departure and subscriber — the count `Spec.checkDepartures` demands.
+Missing for the link: the same bound for the other top-level operations of a segment (they are compositions of the
+nested operations covered by `Proofs/ManagerSimOwedDep.lean`) and the passage from the Spec's observer / owed lists to
+`StableF` / `Owed` in each branch of `Spec.segment`. -/
+theorem departure_notices_counted_partial (cfg : Cfg) (ok : CfgOK cfg) (hfuel : cfg.fuel = 0) (hperm : OrdPerm cfg)
+    (s : State) (h : Top cfg s) (u : Nat) (m : Module) (hm : s.find u = some m)
+    (ext : List Ev) (he : (removeModule cfg (fwdTop cfg) s u).out = s.out ++ ext) (o : Nat) (d : Int) (U : List Nat)
+    (hU : U.Nodup) (ho : StableF cfg (removeModule cfg (fwdTop cfg) s u) o)
+    (hOw : ∀ w ∈ U, Owed cfg cfg.mtClosed d (removeModule cfg (fwdTop cfg) s u) w) :
+    closeN ext * U.length ≤ fcnt o (Bc cfg d) ext := by
+  obtain ⟨e, oe, x⟩ := removeTop_counted ok (OrdAll_of_perm hperm) hfuel h u m hm o d U hU
+  have : e = ext := List.append_cancel_left (oe.symm.trans he)
+  subst this
+  simpa using x ho hOw
+
+/-- **PARTIAL (model level), the same for any top-level forward**: whatever frame is forwarded from a crash-free state
+(a data frame, a log line, a periodic message, …), the departures nested in it are reported to the subscribers of
+CLIENT_CLOSED that cannot take the frame, counted as above; if the frame itself has the header of a CLIENT_CLOSED frame,
+`|U|` more. -/
+theorem nested_departure_notices_counted_partial (cfg : Cfg) (ok : CfgOK cfg) (hfuel : cfg.fuel = 0) (hperm : OrdPerm cfg)
+    (s : State) (h : Top cfg s) (g : Frame)
+    (ext : List Ev) (he : (fwdTop cfg s g).out = s.out ++ ext) (o : Nat) (d : Int) (U : List Nat)
+    (hU : U.Nodup) (ho : StableF cfg (fwdTop cfg s g) o) (hOw : ∀ w ∈ U, Owed cfg cfg.mtClosed d (fwdTop cfg s g) w) :
+    closeN ext * U.length ≤ fcnt o (Bc cfg d) ext ∧
+    (closedHdr cfg g → closeN ext * U.length + U.length ≤ fcnt o (Bc cfg d) ext) := by
+  obtain ⟨e, oe, x⟩ := fwdTop_CK ok (OrdAll_of_perm hperm) hfuel o d U hU (need cfg s g) s g h.good (Nat.le_refl _)
+  have : e = ext := List.append_cancel_left (oe.symm.trans he)
+  subst this
+  refine ⟨by simpa using x 0 0 (Or.inl rfl) (Or.inl rfl) ho hOw, fun hc => ?_⟩
+  simpa using x 0 U.length (Or.inl rfl) (Or.inr ⟨rfl, hc⟩) ho hOw
+
+/-- non-vacuity: module 1 leaves; module 2 (id 11) subscribes to CLIENT_CLOSED and is not writable; module 3 watches
+    FAILED_MESSAGE and is told -/
+def exDep : State :=
+  { mods := [{ uid := 0, connected := true }, { uid := 1, modId := 10, connected := true },
+             { uid := 2, modId := 11, connected := true, subs := [33] },
+             { uid := 3, modId := 12, connected := true, subs := [8] }],
+    idx := [(33, [2]), (8, [3])], wlist := [1, 3], nextUid := 3 }
+example : (removeModule {} (fwdTop {}) exDep 1).out =
+      [.close 1, .send 3 1 (failedFrame {} 11 (closedFrame {} { uid := 1, modId := 10 }))] ∧
+    closeN (removeModule {} (fwdTop {}) exDep 1).out = 1 ∧
+    fcnt 3 (Bc {} 11) (removeModule {} (fwdTop {}) exDep 1).out = 1 := by decide
 
 end Pyrtma.C14
